@@ -169,7 +169,7 @@ func C20(c *core.Ctx) error {
 		}
 	}
 
-	pool := []string{"v1.2.3", "v1.9.0", "v1.10.0", "v2.0.0", "v1", "v1.2", "foo", "v1.3.0-rc.1", "rel.1.x"}
+	pool := []string{"v1.2.3", "v1.9.0", "v1.10.0", "v2.0.0", "v1", "v1.2", "foo", "v1.3.0-rc.1", "rel.1.x", "1.9.5"} // the last one: a full version tag written without the v
 	versions := []string{"v1.2.2", "v1.2.3", "v1.9.1", "v1.10.1", "v2.0.0", "v3.0.0", "1.10.1", "bad", "v1.3.0", "v1.3.0-rc.1", "v1.2.3+build.7", "v1.10.0+20260929"}
 	trees := []string{"clean", "untracked", "modified", "staged"}
 	drys := []string{"absent", "true", "false"}
